@@ -359,6 +359,8 @@ DECODABLE = {
     'eor6': (2, bytes.fromhex('00000007900f0003000201')),
     'refresh': (5, bytes.fromhex('00010001')),
     'update': (2, bytes.fromhex('0000000e4001010040020040030401020304180a0000')),
+    # 1200 withdrawn /24 prefixes: a 4823-octet UPDATE, legal only once extended messages are negotiated by BOTH sides (RFC 8654)
+    'big': (2, (4800).to_bytes(2, 'big') + b''.join(bytes([24, 50, i >> 8, i & 255]) for i in range(1200)) + b'\x00\x00'),
 }
 
 
@@ -479,10 +481,37 @@ def session_cases(draw):
     cuts = sorted(draw(st.lists(st.integers(1, max(1, total - 1)), max_size=8, unique=True)))
     gaps = [draw(st.sampled_from([0.0, 0.02, 0.05, 0.11, 0.15, 0.5, 3.0])) for _ in range(len(cuts) + 1)]
     bad = draw(st.one_of(st.none(), bad_header(4096, True)))
-    return {'msgs': msgs, 'cuts': cuts, 'gaps': gaps, 'bad': bad}
+    case = {'msgs': msgs, 'cuts': cuts, 'gaps': gaps, 'bad': bad}
+    if draw(st.integers(0, 2)) == 0:
+        # extended messages offered by us / by the peer / by both; one message above 4096 octets somewhere in the stream
+        case['ext'] = [draw(st.booleans()), draw(st.booleans())]
+        case['msgs'] = list(msgs)
+        case['msgs'].insert(draw(st.integers(0, len(msgs))), 'big')
+        case['cuts'] = sorted(set(cuts + [c + 4000 for c in cuts[:3]]))
+    return case
+
+
+def session_fixed() -> list:
+    out = []
+    for ours in (False, True):
+        for peer in (False, True):
+            out.append({'msgs': ['ka', 'big', 'ka'], 'cuts': [10, 2000, 4500], 'gaps': [0.0, 0.02, 0.0, 0.0], 'bad': None, 'ext': [ours, peer]})
+            out.append({'msgs': ['big'], 'cuts': [], 'gaps': [0.0], 'bad': None, 'ext': [ours, peer]})
+    return out
 
 
 def check_session(case: dict) -> dict:
+    from vlib import scenario as _sc
+    from vlib.refwire import build as _build
+
+    _sc.EXTRA_CAPS[:] = [_build.cap_ext_msg()] if (case.get('ext') or [False, False])[1] else []
+    try:
+        return _check_session(case)
+    finally:
+        _sc.EXTRA_CAPS[:] = []
+
+
+def _check_session(case: dict) -> dict:
     import json as _json
 
     from vlib import netharness as nh
@@ -495,8 +524,16 @@ def check_session(case: dict) -> dict:
         stream += codec.frame(t, body)
         boundaries.append(len(stream))
     want_err = None
-    if case['bad']:
-        raw, want_err = render_bad(case['bad'], 4096)
+    ext = case.get('ext') or [False, False]
+    limit = 65535 if (ext[0] and ext[1]) else 4096
+    delivered = list(case['msgs'])
+    if 'big' in case['msgs'] and limit == 4096:
+        # the oversized header ends the session with 1/2 and nothing after it is interpreted
+        at = case['msgs'].index('big')
+        delivered = case['msgs'][:at]
+        want_err = (1, 2)
+    if case['bad'] and want_err is None:
+        raw, want_err = render_bad(case['bad'], limit)
         stream += raw
     cuts = [c for c in case['cuts'] if 0 < c < len(stream)]
     chunks = []
@@ -508,7 +545,8 @@ def check_session(case: dict) -> dict:
     out: dict = {}
 
     async def main(loop):
-        with nh.Harness(loop, config_text=sc.config(hold=30, routes=['route 40.0.0.0/24 next-hop 1.2.3.4']), env={'bgp.openwait': 20}) as hn:
+        text = sc.config(hold=30, routes=['route 40.0.0.0/24 next-hop 1.2.3.4'], capability={'extended-message': 'enable' if ext[0] else 'disable'})
+        with nh.Harness(loop, config_text=text, env={'bgp.openwait': 20}) as hn:
             hn.start()
             await hn.sleep(0.2)
             r = hn.remotes[0]
@@ -536,7 +574,7 @@ def check_session(case: dict) -> dict:
             continue
         if doc.get('neighbor', {}).get('direction') == 'receive' and doc.get('type') in ('keepalive', 'update', 'refresh'):
             got.append(doc['type'])
-    want = [{'ka': 'keepalive', 'eor': 'update', 'eor6': 'update', 'update': 'update', 'refresh': 'refresh'}[m] for m in case['msgs']]
+    want = [{'ka': 'keepalive', 'eor': 'update', 'eor6': 'update', 'update': 'update', 'refresh': 'refresh', 'big': 'update'}[m] for m in delivered]
     if got != want:
         raise Violation('session:message-sequence-differs', f'handed up {got}, the stream holds {want}; cuts {cuts} gaps {case["gaps"]}')
     notes = [codec.decode_notification(b)[:2] for ty, b in out['after'] if ty == 3]
@@ -550,6 +588,8 @@ def check_session(case: dict) -> dict:
             raise Violation(f'session:wrong-error:{notes[0][0]}/{notes[0][1]}-for-{want_err[0]}/{want_err[1]}', case['bad']['kind'])
     slow = any(g > 0.1 for g in case['gaps'][: len(chunks) - 1])
     classes = ['session']
+    if 'ext' in case:
+        classes.append(f'session:extended-message:ours={ext[0]}:peer={ext[1]}')
     if slow:
         classes.append('session:gap>100ms-inside-stream')
     if case['bad']:
@@ -557,4 +597,4 @@ def check_session(case: dict) -> dict:
     return {'nontrivial': nontrivial(chunks, boundaries), 'classes': classes}
 
 
-ENGINES.append(Engine('session', session_cases, check_session, quick=60, thorough=1500, batch=60))
+ENGINES.append(Engine('session', session_cases, check_session, quick=60, thorough=1500, batch=60, fixed_cases=session_fixed))
